@@ -1,6 +1,8 @@
 package drv
 
 import (
+	"strings"
+
 	"fmt"
 	"os"
 	"runtime"
@@ -27,11 +29,14 @@ const WorkDir = "w"
 // a non-empty list keeps the default system directories away
 var sysDirs = []avfs.DirInfo{{Path: "/" + WorkDir, Perm: 0o755}}
 
+var winDirs = []avfs.DirInfo{{Path: "C:\\" + WorkDir, Perm: 0o755}}
+
 // NewFactory prepares a target. For "osfs" the calling process is chrooted into a
 // fresh tmpfs directory (the process must be dedicated to this target).
 func NewFactory(target string) (*Factory, error) {
 	_ = avfs.SetUMask(0o022)
 	f := &Factory{Target: target}
+	winSession = strings.HasSuffix(target, "-win")
 
 	if target == "osfs" {
 		f.osfs = osfs.New()
@@ -83,6 +88,30 @@ func (f *Factory) New() (*Session, error) {
 		_ = vfs.Chdir("/")
 		s.FS = vfs
 		s.Check = memfsCheck(vfs)
+	case "memfs-win":
+		vfs := memfs.NewWithOptions(&memfs.Options{SystemDirs: winDirs, Idm: memidm.New(), OSType: avfs.OsWindows})
+		if vfs.OSType() != avfs.OsWindows {
+			return nil, fmt.Errorf("a Windows-typed MemFS cannot be constructed (build without avfs_setostype?)")
+		}
+
+		_ = vfs.SetUMask(0o022)
+		_ = vfs.Chdir("C:\\")
+		s.FS = vfs
+		s.Win = true
+		s.Check = memfsCheck(vfs)
+	case "orefafs-win":
+		vfs := orefafs.NewWithOptions(&orefafs.Options{SystemDirs: winDirs, OSType: avfs.OsWindows})
+		if vfs.OSType() != avfs.OsWindows {
+			return nil, fmt.Errorf("a Windows-typed OrefaFS cannot be constructed (build without avfs_setostype?)")
+		}
+
+		_ = vfs.SetUMask(0o022)
+		s.FS = vfs
+		s.NoIdm = true
+		s.NoSym = true
+		s.NoRootList = true
+		s.Win = true
+		s.Check = orefafsCheck(vfs)
 	case "orefafs":
 		vfs := orefafs.NewWithOptions(&orefafs.Options{SystemDirs: sysDirs})
 		_ = vfs.SetUMask(0o022)
